@@ -139,3 +139,213 @@ Proof.
   unfold parse_int32_with. intros H. apply bind_ok in H. destruct H as (u & _ & H). apply bind_ok in H. destruct H as (v & _ & H).
   destruct (Z.ltb_spec v (-2147483648)); [discriminate|]. destruct (Z.ltb_spec 2147483647 v); [discriminate|]. inversion H; subst. lia.
 Qed.
+
+Lemma pow_128_256 m : 0 <= m -> 128 * 256 ^ m = 2 ^ (7 + 8 * m).
+Proof.
+  intros Hm. rewrite Z.pow_add_r by lia. change (2 ^ 7) with 128. change 256 with (2 ^ 8). rewrite <- Z.pow_mul_r by lia. reflexivity.
+Qed.
+
+Theorem bigint_parse_emit c z : parse_bigint_with (check_integer false) c = Ok z -> bigint_enc z = c.
+Proof.
+  unfold parse_bigint_with. intros H. apply bind_ok in H. destruct H as ([] & Hm & H). inversion H; subst. unfold bigint_enc.
+  apply int_enc_canon; [destruct c; discriminate|exact Hm|].
+  destruct c as [|b0 [|b1 r]]; [discriminate|cbn; lia|].
+  destruct (minimal_magnitude _ _ _ Hm) as [Hz|Hz]; pose proof (zlen_nonneg r) as Hr;
+    rewrite pow_128_256 in Hz by lia.
+  - assert (Hl : 7 + 8 * zlen r <= Z.log2 (Z.abs (be_signed (b0 :: b1 :: r)))).
+    { rewrite <- (Z.log2_pow2 (7 + 8 * zlen r)) by lia. apply Z.log2_le_mono. lia. }
+    assert (zlen r <= Z.log2 (Z.abs (be_signed (b0 :: b1 :: r))) / 8) by (apply Z.div_le_lower_bound; lia).
+    cbn [length]. unfold zlen in *. lia.
+  - assert (Hl : 7 + 8 * zlen r <= Z.log2 (Z.abs (be_signed (b0 :: b1 :: r)))).
+    { rewrite <- (Z.log2_pow2 (7 + 8 * zlen r)) by lia. apply Z.log2_le_mono. lia. }
+    assert (zlen r <= Z.log2 (Z.abs (be_signed (b0 :: b1 :: r))) / 8) by (apply Z.div_le_lower_bound; lia).
+    cbn [length]. unfold zlen in *. lia.
+Qed.
+
+Theorem bool_parse_emit c b : parse_bool c = Ok b -> c = [if b then xff else x00].
+Proof.
+  unfold parse_bool. destruct c as [|x [|? ?]]; try discriminate.
+  destruct (Z.eqb_spec (bz x) 0) as [E|E].
+  - intros H; inversion H; subst. f_equal. apply bz_inj. rewrite E. reflexivity.
+  - destruct (Z.eqb_spec (bz x) 255) as [E2|E2]; [|discriminate]. intros H; inversion H; subst. f_equal. apply bz_inj. rewrite E2. reflexivity.
+Qed.
+
+Theorem bitstring_parse_emit c body n : parse_bitstring c = Ok (body, n) -> bitstring_enc body n = c.
+Proof.
+  unfold parse_bitstring. destruct c as [|p r]; [discriminate|].
+  assert (Hzl : zlen (p :: r) = 1 + zlen r) by apply zlen_cons.
+  remember (zlen (p :: r)) as zl eqn:Ezl. clear Ezl.
+  destruct (Z.gtb_spec (bz p) 7) as [Hp|Hp]; [cbn [orb]; discriminate|]. cbn [orb].
+  destruct (_ || _); [discriminate|]. intros H; injection H as Hbody Hn; subst body n zl. unfold bitstring_enc. f_equal.
+  replace (1 + zlen r - 1) with (zlen r) by lia.
+  pose proof (bz_range p) as Hb. rewrite <- (zb_bz p) at 2. f_equal.
+  assert (Hmod : (zlen r * 8 - bz p) mod 8 = (8 - bz p) mod 8).
+  { replace (zlen r * 8 - bz p) with ((8 - bz p) + (zlen r - 1) * 8) by lia. apply Z.mod_add. lia. }
+  rewrite Hmod.
+  assert (bz p = 0 \/ bz p = 1 \/ bz p = 2 \/ bz p = 3 \/ bz p = 4 \/ bz p = 5 \/ bz p = 6 \/ bz p = 7) as Hc by lia.
+  destruct Hc as [E|[E|[E|[E|[E|[E|[E|E]]]]]]]; rewrite E; reflexivity.
+Qed.
+
+(* OIDs: with the upstream reader (no leading 0x80) the content is what makeObjectIdentifier writes *)
+Lemma oid_rest_canon fuel : forall d l, oid_rest (parse_base128 Upstream) fuel d = Ok l -> flat_map append_base128 l = d.
+Proof.
+  induction fuel as [|f IH]; intros d l H; destruct d as [|b r]; cbn [oid_rest] in H; try discriminate;
+    try (inversion H; reflexivity).
+  apply bind_ok in H. destruct H as ([n r'] & E & H). cbn [fst snd] in H. apply bind_ok in H. destruct H as (l' & E2 & H).
+  inversion H; subst. cbn [flat_map]. apply parse_base128_canon in E; [|left; reflexivity]. rewrite E.
+  rewrite (IH _ _ E2). reflexivity.
+Qed.
+
+Theorem oid_parse_emit_upstream c l : parse_oid (parse_base128 Upstream) false c = Ok l -> oid_enc l = Ok c.
+Proof.
+  unfold parse_oid. destruct c as [|b r]; [discriminate|]. intros H.
+  apply bind_ok in H. destruct H as ([n r'] & E & H). cbn [fst snd] in H. apply bind_ok in H. destruct H as (l' & E2 & H).
+  pose proof (b128_loop_bound Upstream (b :: r) 0%nat 0 n r' ltac:(lia) E) as Hn.
+  apply parse_base128_canon in E; [|left; reflexivity]. apply oid_rest_canon in E2. inversion H; subst. rewrite E.
+  destruct (Z.ltb_spec n 80).
+  - cbn [app oid_enc].
+    assert (0 <= n / 40 < 2) by (split; [apply Z.div_pos; lia|apply Z.div_lt_upper_bound; lia]).
+    pose proof (Z.mod_pos_bound n 40 ltac:(lia)).
+    destruct (Z.ltb_spec 2 (n / 40)); [lia|]. destruct (Z.ltb_spec (n / 40) 2); [|lia]. destruct (Z.leb_spec 40 (n mod 40)); [lia|].
+    cbn [orb andb]. pose proof (Z.div_mod n 40 ltac:(lia)). replace (n / 40 * 40 + n mod 40) with n by lia. reflexivity.
+  - cbn [app oid_enc]. change (2 <? 2) with false. change (2 <? 2) with false. cbn [orb andb].
+    replace (2 * 40 + (n - 80)) with n by lia. reflexivity.
+Qed.
+
+Theorem oid_parse_emit_fork c l : ~ oid_leading80 c -> parse_oid (parse_base128 Fork) false c = Ok l -> oid_enc l = Ok c.
+Proof.
+  intros Hn H. destruct (parse_oid_variant false c) as [E|E]; [|contradiction]. rewrite <- E in H. apply oid_parse_emit_upstream. exact H.
+Qed.
+
+(* ------------------------------------------------------------------ times *)
+Ltac dm := Z.div_mod_to_equations; lia.
+
+Lemma digit_char a : is_digit a = true -> 0 <= dig a <= 9 /\ zb (48 + dig a) = a.
+Proof.
+  unfold is_digit, in_range, dig. intros H. apply andb_true_iff in H. destruct H as [H1 H2].
+  split; [lia|]. replace (48 + (bz a - 48)) with (bz a) by lia. apply zb_bz.
+Qed.
+
+Lemma two_digits_canon d v r : two_digits d = Some (v, r) -> d = two_dig v ++ r /\ 0 <= v < 100.
+Proof.
+  unfold two_digits. destruct d as [|a [|b t]]; try discriminate.
+  destruct (is_digit a) eqn:Ea; [|discriminate]. destruct (is_digit b) eqn:Eb; [|discriminate]. cbn [andb].
+  intros H; injection H as Hv Hr; subst v r. apply digit_char in Ea, Eb. destruct Ea as [Ra Za], Eb as [Rb Zb].
+  split; [|lia]. unfold two_dig. cbn [app].
+  replace ((dig a * 10 + dig b) / 10 mod 10) with (dig a) by dm.
+  replace ((dig a * 10 + dig b) mod 10) with (dig b) by dm. rewrite Za, Zb. reflexivity.
+Qed.
+
+Lemma four_digits_canon d v r : four_digits d = Some (v, r) -> d = four_dig v ++ r /\ 0 <= v < 10000.
+Proof.
+  unfold four_digits. destruct (two_digits d) as [[hi r1]|] eqn:E1; [|discriminate].
+  destruct (two_digits r1) as [[lo r2]|] eqn:E2; [|discriminate]. intros H; injection H as Hv Hr; subst v r.
+  apply two_digits_canon in E1, E2. destruct E1 as [-> H1], E2 as [-> H2]. split; [|lia].
+  unfold four_dig, two_dig. cbn [app].
+  replace ((hi * 100 + lo) / 1000 mod 10) with (hi / 10 mod 10) by dm.
+  replace ((hi * 100 + lo) / 100 mod 10) with (hi mod 10) by dm.
+  replace ((hi * 100 + lo) / 10 mod 10) with (lo / 10 mod 10) by dm.
+  replace ((hi * 100 + lo) mod 10) with (lo mod 10) by dm. reflexivity.
+Qed.
+
+Definition zone_enc (off : Z) : bytes :=
+  let om := Z.quot off 60 in
+  if om =? 0 then [x5a]
+  else (if 0 <? off then [x2b] else [x2d]) ++ two_dig (Z.abs om / 60) ++ two_dig (Z.abs om mod 60).
+Lemma time_common_eq t :
+  time_common t = two_dig (tm_month t) ++ two_dig (tm_day t) ++ two_dig (tm_hour t) ++ two_dig (tm_min t) ++ two_dig (tm_sec t) ++ zone_enc (tm_off t).
+Proof. reflexivity. Qed.
+
+Lemma parse_zone_canon d off : parse_zone d = Some off -> zone_enc off = d.
+Proof.
+  unfold parse_zone. destruct d as [|s r]; [discriminate|].
+  assert (Hsign : (bz s =? 43) || (bz s =? 45) = true ->
+            match two_digits r with
+            | Some (hh, r1) => match two_digits r1 with
+                | Some (mm, []) => if (hh <=? 24) && (mm <? 60) && negb ((hh =? 0) && (mm =? 0))
+                                   then Some ((if bz s =? 43 then 1 else -1) * (hh * 60 + mm) * 60) else None
+                | _ => None end
+            | None => None end = Some off -> zone_enc off = s :: r).
+  { intros Hs. destruct (two_digits r) as [[hh r1]|] eqn:E1; [|discriminate].
+    destruct (two_digits r1) as [[mm r2]|] eqn:E2; [|discriminate]. destruct r2; [|discriminate].
+    destruct (Z.leb_spec hh 24); [|discriminate]. destruct (Z.ltb_spec mm 60); [|discriminate]. cbn [andb].
+    destruct ((hh =? 0) && (mm =? 0)) eqn:Ez; [discriminate|]. cbn [negb]. intros Hi; injection Hi as <-.
+    apply two_digits_canon in E1, E2. destruct E1 as [-> H1], E2 as [E2 H2]. rewrite app_nil_r in E2. subst r1.
+    assert (Hnz : hh * 60 + mm <> 0).
+    { apply andb_false_iff in Ez. destruct Ez as [Ez|Ez]; [destruct (Z.eqb_spec hh 0)|destruct (Z.eqb_spec mm 0)]; try discriminate; lia. }
+    unfold zone_enc. destruct (Z.eqb_spec (bz s) 43) as [Es|Es].
+    - rewrite Z.mul_1_l. rewrite Z.quot_mul by lia. destruct (Z.eqb_spec (hh * 60 + mm) 0); [lia|].
+      destruct (Z.ltb_spec 0 ((hh * 60 + mm) * 60)); [|lia]. rewrite Z.abs_eq by lia.
+      replace ((hh * 60 + mm) / 60) with hh by dm. replace ((hh * 60 + mm) mod 60) with mm by dm.
+      cbn [app]. f_equal. apply bz_inj. rewrite Es. reflexivity.
+    - assert (Es2 : bz s = 45) by (destruct (Z.eqb_spec (bz s) 45); [assumption|cbn in Hs; destruct (bz s =? 43); discriminate]).
+      replace (-1 * (hh * 60 + mm) * 60) with ((- (hh * 60 + mm)) * 60) by lia. rewrite Z.quot_mul by lia.
+      destruct (Z.eqb_spec (- (hh * 60 + mm)) 0); [lia|].
+      destruct (Z.ltb_spec 0 (- (hh * 60 + mm) * 60)); [lia|]. rewrite Z.abs_neq by lia. rewrite Z.opp_involutive.
+      replace ((hh * 60 + mm) / 60) with hh by dm. replace ((hh * 60 + mm) mod 60) with mm by dm.
+      cbn [app]. f_equal. apply bz_inj. rewrite Es2. reflexivity. }
+  destruct r as [|r0 rr].
+  - destruct (Z.eqb_spec (bz s) 90) as [E|E]; [|discriminate]. intros H; injection H as <-.
+    unfold zone_enc. cbn. f_equal. apply bz_inj. rewrite E. reflexivity.
+  - destruct ((bz s =? 43) || (bz s =? 45)) eqn:Es; [|discriminate]. apply Hsign. reflexivity.
+Qed.
+
+Lemma parse_fraction_none d ns r : parse_fraction false d = Some (ns, r) -> ns = 0 /\ r = d.
+Proof.
+  unfold parse_fraction. destruct d as [|p t]; [intros H; inversion H; auto|].
+  destruct (bz p =? 46); [discriminate|]. intros H; inversion H; auto.
+Qed.
+
+(* the fields of a time accepted by a layout with seconds and without fraction, and its text *)
+Lemma layout_secs_canon long c t :
+  parse_time_layout long true false c = Some t ->
+  exists ytxt, c = ytxt ++ time_common t /\ tm_nsec t = 0 /\
+    (if long then ytxt = four_dig (tm_year t) /\ 0 <= tm_year t < 10000
+     else exists yy, ytxt = two_dig yy /\ 0 <= yy < 100 /\ tm_year t = (if 69 <=? yy then 1900 + yy else 2000 + yy)).
+Proof.
+  unfold parse_time_layout.
+  set (yr := if long then four_digits c else match two_digits c with Some (yy, r) => Some (if 69 <=? yy then 1900 + yy else 2000 + yy, r) | None => None end).
+  destruct yr as [[year r0]|] eqn:Ey; [|discriminate].
+  destruct (two_digits r0) as [[mon r1]|] eqn:E1; [|discriminate].
+  destruct (two_digits r1) as [[day r2]|] eqn:E2; [|discriminate].
+  destruct (two_digits r2) as [[hh r3]|] eqn:E3; [|discriminate].
+  destruct (two_digits r3) as [[mi r4]|] eqn:E4; [|discriminate].
+  destruct (two_digits r4) as [[ss r5]|] eqn:E5; [|discriminate].
+  destruct (parse_fraction false r5) as [[ns r6]|] eqn:E6; [|discriminate].
+  destruct (parse_zone r6) as [off|] eqn:E7; [|discriminate].
+  destruct (_ && _ && _ && _ && _ && _ && _); [|discriminate]. intros H; injection H as <-.
+  apply parse_fraction_none in E6. destruct E6 as [-> ->]. apply parse_zone_canon in E7.
+  apply two_digits_canon in E1, E2, E3, E4, E5.
+  destruct E1 as [-> _], E2 as [-> _], E3 as [-> _], E4 as [-> _], E5 as [-> _].
+  subst r5.
+  unfold yr in Ey. destruct long.
+  - apply four_digits_canon in Ey. destruct Ey as [-> Hy]. exists (four_dig year). split; [reflexivity|]. split; [reflexivity|]. auto.
+  - destruct (two_digits c) as [[yy r]|] eqn:E0; [|discriminate]. injection Ey as Hyr Hr0. subst year r.
+    apply two_digits_canon in E0. destruct E0 as [-> Hy]. exists (two_dig yy). split; [reflexivity|]. split; [reflexivity|]. eauto.
+Qed.
+
+Theorem gentime_parse_emit c t : parse_gentime false c = Ok t -> gentime_enc t = Ok c.
+Proof.
+  unfold parse_gentime. destruct (parse_time_layout true true false c) as [t'|] eqn:E; [|discriminate]. intros H; injection H as <-.
+  apply layout_secs_canon in E. destruct E as (ytxt & -> & _ & -> & Hy). unfold gentime_enc.
+  destruct (Z.ltb_spec (tm_year t') 0); [lia|]. destruct (Z.ltb_spec 9999 (tm_year t')); [lia|]. reflexivity.
+Qed.
+
+(* UTCTime in its DER form (with seconds) *)
+Theorem utctime_parse_emit c t :
+  parse_time_layout false false false c = None -> parse_utctime c = Ok t -> utctime_enc t = Ok c.
+Proof.
+  unfold parse_utctime. intros -> H. destruct (parse_time_layout false true false c) as [t'|] eqn:E; [|discriminate].
+  apply layout_secs_canon in E. destruct E as (ytxt & -> & _ & yy & -> & Hy & Hyear).
+  injection H as <-. unfold utctime_enc. destruct t' as [Y M D h m s ns off]. cbn [tm_year] in *.
+  destruct (Z.leb_spec 69 yy).
+  - subst Y. destruct (Z.leb_spec 2050 (1900 + yy)); [lia|]. cbn [tm_year].
+    destruct (Z.leb_spec 1950 (1900 + yy)); [|lia]. destruct (Z.ltb_spec (1900 + yy) 2000); [|lia]. cbn [andb].
+    replace (1900 + yy - 1900) with yy by lia. reflexivity.
+  - subst Y. destruct (Z.leb_spec 2050 (2000 + yy)).
+    + cbn [tm_year]. destruct (Z.leb_spec 1950 (2000 + yy - 100)); [|lia]. destruct (Z.ltb_spec (2000 + yy - 100) 2000); [|lia]. cbn [andb].
+      replace (2000 + yy - 100 - 1900) with yy by lia. reflexivity.
+    + cbn [tm_year]. destruct (Z.leb_spec 1950 (2000 + yy)); [|lia]. destruct (Z.ltb_spec (2000 + yy) 2000); [lia|]. cbn [andb].
+      destruct (Z.leb_spec 2000 (2000 + yy)); [|lia]. destruct (Z.ltb_spec (2000 + yy) 2050); [|lia]. cbn [andb].
+      replace (2000 + yy - 2000) with yy by lia. reflexivity.
+Qed.
